@@ -39,9 +39,20 @@ func drain(out <-chan search.PV, max time.Duration) ([]search.PV, bool) {
 	}
 }
 
+// mateWithin: a forced mate (either way) within the searched depth, computed from the score's fields
+// (not through Score.MateDistance, which is part of the code under test).
 func mateWithin(pv search.PV) bool {
-	md, ok := pv.Score.MateDistance()
-	return ok && int(md) <= pv.Depth
+	switch pv.Score.Type {
+	case eval.Inf, eval.NegInf:
+		return true
+	case eval.MateInX:
+		d := int(pv.Score.Mate)
+		if d < 0 {
+			d = -d
+		}
+		return d <= pv.Depth
+	}
+	return false
 }
 
 // checkStream compares a PV stream with direct fixed-depth searches.
@@ -384,6 +395,39 @@ func runC15(c *fw.Ctx, cs fw.Case) {
 			if last := pvs[len(pvs)-1]; !mateWithin(last) && last.Depth != d {
 				c.Violate("iter:engine-default", "analysis without explicit limit ended at depth %d, the engine default is %d: %s", last.Depth, d, what)
 			}
+			// an explicit limit of zero means "no limit" and overrides the engine default: runs until halted
+			if d <= 2 {
+				out2, err := e.Analyze(ctx, searchctl.Options{DepthLimit: lang.Some(uint(0))})
+				if err != nil {
+					continue
+				}
+				beyond, ended, mated := false, false, false
+				timeout := time.After(20 * time.Second)
+			read0:
+				for {
+					select {
+					case pv, ok := <-out2:
+						if !ok {
+							ended = true
+							break read0
+						}
+						if mateWithin(pv) {
+							mated = true
+						}
+						if pv.Depth > d {
+							beyond = true
+							break read0
+						}
+					case <-timeout:
+						break read0
+					}
+				}
+				e.Halt(ctx)
+				c.Count("explicit_no_limit_runs", 1)
+				if ended && !mated && !beyond {
+					c.Violate("iter:explicit-no-limit", "analysis with an explicit depth limit of 0 (no limit) ended by itself at the engine default depth %d: %s", d, what)
+				}
+			}
 		}
 	}
 }
@@ -407,7 +451,7 @@ func init() {
 			return l
 		},
 		Floors: func(string) map[string]int64 {
-			return map[string]int64{"limit_checks": 10000, "streams": 100, "iterations_compared": 500, "ended_by_mate": 3, "halts_after_k": 60, "gated_halts": 50, "clock_runs": 30, "engine_default_runs": 20}
+			return map[string]int64{"limit_checks": 10000, "streams": 100, "iterations_compared": 500, "ended_by_mate": 3, "halts_after_k": 60, "gated_halts": 50, "clock_runs": 30, "engine_default_runs": 20, "explicit_no_limit_runs": 10}
 		},
 		Run: runC15,
 	})
